@@ -23,6 +23,16 @@ ARQ = ("Modelled, not verified: f64 rounding (exact integer lengths, multiples o
        "unbounded recursion, adequacy is a theorem under the arena invariant (depth < size by pigeonhole); stack depth on extremely deep trees. ")
 
 CLAIMS = {
+ "C17": dict(
+   text="Kernel-checked theorems quantifying over EVERY outcome of the random choices (the generators are functions of an explicit oracle): for the ETE3-like generator and every "
+        "sequence of front/back choices, and for the Yule generator and every sequence of valid candidate choices (Vec::swap_remove bookkeeping included), the loop never fails and "
+        "after n-1 iterations there are 2n-1 slots, exactly n tips (the loop's leaf count grows by one per iteration, so the Yule loop terminates after exactly n-1 iterations), a "
+        "slot is a tip iff it has no children and every other slot has exactly two distinct children. Tied to the crate through the seedable-RNG hook: the choices are read back from "
+        "the real result and the model must rebuild the identical tree and tip numbering; the caterpillar generator (deterministic) is compared exactly. Oracles on the real result: "
+        "arena invariant, rooted binary, n leaves, 2n-1 nodes, unique Tip_i names on tips only, lengths all present and inside the distribution's support / all absent, comb shape "
+        "and Colless = (n-1)(n-2)/2 for the caterpillar.",
+   note=NOTE + "Modelled, not verified: rand / rand_distr (theorems hold for every oracle; the supports Uniform[0.002,1), Exp(0.15) >= 0, Gamma(4,1) > 0 are checked on the drawn values only).",
+   technique="Lean 4 invariant proofs over all oracles for the generator loops + oracle read-back differential execution through the seedable-RNG hook", ref="5 C17"),
  "C15": dict(
    text="Kernel-checked theorems over exact rationals on the abstract agglomeration state (active indices, distances, ghost member lists, heights): the code's "
         "size-weighted update is average linkage of the merged cluster; one step of the code (reuse index a, retire b, weighted update) keeps every live distance equal to the "
